@@ -52,6 +52,89 @@ class Summary:
             # result dict variable: the one returned
             r = self.sx.ret
             self.res_var = r[2] if r[0] == "res" else None
+            self.set_flag_flaw = None
+            try:
+                _failed_set_as_flag(self)
+            except (KeyError, IndexError, TypeError):
+                pass
+
+
+def _failed_set_as_flag(s):
+    """`failed = set()` before the games, `failed.add(key)` when a solve raises, `if key not in failed:` before a solve: a collection of
+    the games without solution.  Game names are the keys of a dictionary - no two games share one - so for the current game the
+    membership test is a per-game boolean: it is rewritten as the flag `$had_solution` (True for every new game, False once this
+    game's key was added), provided the key that is ADDED in the pruned mode is the key that is TESTED in the unpruned one (the
+    driver rebinds `name`: `name + "_no_prune"` is never found among the names that were added)."""
+    Lo, Li = s.Lo, s.Li
+    for v, init in list(Li.init.items()):
+        if init != ("acc", Lo.id, v) or v == s.res_var:
+            continue
+        if Lo.init.get(v) not in (("set", ()), ("list", ()), ("call", "set", (), ())):
+            continue
+        acc = ("acc", Li.id, v)
+        u = Li.update.get(v)
+        if u is None:
+            continue
+        adds = [x for x in C02._sub(u) if x[0] == "cat" and x[1] == acc and x[2][0] in ("list", "set") and len(x[2][1]) == 1]
+        if len({a[2][1][0] for a in adds}) != 1:
+            continue
+        k_add = adds[0][2][1][0]
+        leftover = subst(u, lambda x: ("$", ) if (x[0] == "cat" and x[1] == acc and x in adds) else None)
+        if mentions(leftover, lambda x: x[0] in ("cat", "setitem") and mentions(x, lambda y: y == acc)):
+            continue
+        tests = set()
+        clean = True
+
+        def walk(x, parent):
+            nonlocal clean
+            if isinstance(x, tuple) and x:
+                if x == acc:
+                    if parent is not None and parent[0] == "cmp" and parent[1] in ("in", "notin") and parent[3] == acc:
+                        tests.add(parent[2])
+                    else:
+                        clean = False
+                    return
+                for y in x:
+                    walk(y, x if isinstance(x[0], str) else parent)
+        for var, uu in Li.update.items():
+            if var != v:
+                walk(uu, None)
+        for e in Li.effects:
+            walk(e, None)
+        # the condition of the addition itself may ask the set (`if key not in failed: failed.add(key)`)
+        if not clean or len(tests) != 1:
+            continue
+        k_test = next(iter(tests))
+        # unroll the two modes
+        cur = {x: Li.init[x] for x in Li.init}
+        inst = []
+        for mode in (C(True), C(False)):
+            mapping = {("elem", Li.id): mode}
+            for x, val in cur.items():
+                mapping[("acc", Li.id, x)] = val
+            inst.append((_inst(k_add, mapping), _inst(k_test, mapping)))
+            cur = {x: _inst(Li.update[x], mapping) for x in Li.update}
+        added_pruned, tested_unpruned = simp(inst[0][0]), simp(inst[1][1])
+        if added_pruned != tested_unpruned:
+            s.set_flag_flaw = ("the games without solution are collected in `%s` under `%s` (pruned run) and looked up under `%s` (unpruned run): the look-up never finds what was added, "
+                               "so the unpruned run of a game without solution is solved all the same" % (v, show(added_pruned), show(tested_unpruned)), acc)
+            return
+        flag = "$had_solution"
+        facc = ("acc", Li.id, flag)
+
+        def rw(t):
+            def g(x):
+                if x[0] == "cmp" and x[1] in ("in", "notin") and x[3] == acc and x[2] == k_test:
+                    return facc if x[1] == "notin" else ("not", facc)
+                return None
+            return subst(t, g)
+        new_u = subst(rw(u), lambda x: C(False) if (x[0] == "cat" and x[1] == acc and x in adds) else (facc if x == acc else None))
+        Li.update = {var: rw(uu) for var, uu in Li.update.items() if var != v}
+        Li.update[flag] = new_u
+        Li.effects = [tuple(rw(x) if isinstance(x, tuple) and x and isinstance(x[0], str) else x for x in e) for e in Li.effects]
+        Li.init = {var: val for var, val in Li.init.items() if var != v}
+        Li.init[flag] = C(True)
+        return
 
 
 def summary(ctx):
@@ -310,6 +393,9 @@ def r3_isolation(ctx, chk, rec_t, rule="C12.3"):
     if bad:
         chk.violation(rule, f.where(Li.node), "an entry records `%s`, whose value can come from an earlier game or mode (it is not re-established in every iteration): a failing game reports its predecessor's results" % show(bad[0]),
                       expected="defaults None/0 set inside the mode loop", found=show(bad[0]), construct="run_games loop-carried record value %s" % bad[0][2])
+    elif getattr(s, "set_flag_flaw", None):
+        chk.violation(rule, f.where(Li.node), s.set_flag_flaw[0], expected="the same key added and looked up", found=show(s.set_flag_flaw[1]),
+                      construct="run_games failed-set key mismatch")
     elif control_only and _carried_control_flaw(s, control_only, norm):
         why, t0 = _carried_control_flaw(s, control_only, norm)
         chk.violation(rule, f.where(Li.node), why, expected="what a game's entry records depends on that game only", found=show(t0)[:100],
@@ -532,7 +618,8 @@ def r4_failure_protocol(ctx, chk, rule="C12.4"):
             flag, show(scenario(s, Li.update[flag], good, True))), expected="flag flips when the solve raised", found=show(Li.update[flag])[:140], construct="run_games flag update")
         return
     # flag re-established per game: its initial value for the mode loop is a constant assigned inside the game loop
-    assigned_in_outer = any(isinstance(n, ast.Assign) and any(isinstance(t, ast.Name) and t.id == flag for t in n.targets) for n in Lo.node.body)
+    assigned_in_outer = flag == "$had_solution" or \
+        any(isinstance(n, ast.Assign) and any(isinstance(t, ast.Name) and t.id == flag for t in n.targets) for n in Lo.node.body)   # ($: membership of this game's own key)
     if not assigned_in_outer:
         chk.violation(rule, f.where(Lo.node), "the flag `%s` is not re-set for each game: after one failing game every later game is reported 'not solved'" % flag,
                       expected="%s = %r at the start of every game" % (flag, good), found="set outside the game loop", construct="run_games flag hoisted")
@@ -736,6 +823,44 @@ def r5_record(ctx, chk, rec_t, rule="C12.5"):
                           construct="solve() slot %d source" % slot)
 
 
+def observe(ctx, chk, prefix, keys, with_msg=False):
+    """The properties of the solver are observed through the batch driver (`run_games()[name][key]`): what the solver
+    computed must arrive in the entry of its own game and mode under its own key.  Runs the driver rules of C12 (entry keys,
+    mode handed to the solver, nothing carried over from an earlier game, the slot recorded under each key) and reports, under
+    `prefix`, what concerns the given keys (and everything that concerns every key)."""
+    import re
+    rec = shared.Recorder()
+    rec_t = r1_keys(ctx, rec, "1")
+    r2_mode_reaches_solver(ctx, rec, "2")
+    if rec_t is not None:
+        r3_isolation(ctx, rec, rec_t, "3")
+        r5_record(ctx, rec, rec_t, "5")
+    if with_msg:
+        r4_failure_protocol(ctx, rec, "4")
+    other_keys = [k for k in list(SLOT_OF) + ["n_states", "n_transitions", "msg", "total_time"] if k not in keys]
+    n = 0
+    for kind, rule, where, text, kw in rec.items:
+        if kind == "note":
+            continue
+        con = str(kw.get("construct", ""))
+        about = re.findall(r"record\[['\"]?(\w+)['\"]?\]", text if isinstance(text, str) else "") + re.findall(r"run_games record (\w+)", con)
+        if "solve()[" in (text if isinstance(text, str) else "") and rule == "5" and not about:
+            m_ = re.search(r"solve\(\)\[(\d)\]", text)
+            about = [k for k, sl in SLOT_OF.items() if m_ and sl == int(m_.group(1))]
+        if about and not any(a in keys for a in about) and all(a in other_keys for a in about):
+            continue
+        if kind == "ok" and not about and rule == "5":
+            continue
+        n += 1
+        if kind == "undecided":
+            # a driver the rules do not understand leaves the observation open; what the property says about solve() itself is
+            # decided by the property's own rules - noted, not an obligation of this check (C12 carries it)
+            chk.note("%s:C12.%s not decided here: %s" % (prefix, rule, str(text)[:160]))
+            continue
+        getattr(chk, kind)("%s:C12.%s" % (prefix, rule), where, text, **kw)
+    return n
+
+
 def run(ctx, chk):
     r1b_module_iterators(ctx, chk)
     rec = r1_keys(ctx, chk)
@@ -750,6 +875,13 @@ def run(ctx, chk):
     from . import C09
     C09.r123_check_game(ctx, chk, "C12.pre:C09.1")
     C09.r4_check_next_states(ctx, chk, "C12.pre:C09.1")
+    # observed through `conditionalrewards.py -f FILE -s`: every entry (also the failed ones, with their message) is in the report
+    from . import C16
+    rec16 = shared.Recorder()
+    C16.r1234_writer(ctx, rec16)
+    for kind, rule, where, text, kw in rec16.items:
+        if kind in ("ok", "violation") and (rule == "C16.4" or (kind == "violation" and "msg" in str(kw.get("construct", "")) + str(text))):
+            getattr(chk, kind)("C12.obs:%s" % rule, where, text, **kw)       # (an unrecognised writer is C16's to decide)
     chk.require_instances("C12.5", 12)
 
 
